@@ -142,6 +142,19 @@ func (s *pd6) Plan(w *World) {
 		s.clients[0].DUID = &dhcpv6.DUIDOpaque{Type: 77, Data: []byte{1, 2, 3}}
 		s.clients[1].DUID = &dhcpv6.DUIDOpaque{Type: 77, Data: []byte{1, 2, 3, 4}}
 	}
+	// DUIDs that differ only in a hardware type without an IANA name (same link-layer address): different clients
+	if nc >= 2 && t.Draw(4) == 0 {
+		ll := append(net.HardwareAddr(nil), s.clients[0].MAC...)
+		k := nc - 1
+		if t.Draw(2) == 0 {
+			s.clients[0].DUID = &dhcpv6.DUIDLL{HWType: iana.HWType(0x0101), LinkLayerAddr: ll}
+			s.clients[k].DUID = &dhcpv6.DUIDLL{HWType: iana.HWType(0x0102), LinkLayerAddr: append(net.HardwareAddr(nil), ll...)}
+		} else {
+			s.clients[0].DUID = &dhcpv6.DUIDLLT{HWType: iana.HWType(0x0101), Time: 7, LinkLayerAddr: ll}
+			s.clients[k].DUID = &dhcpv6.DUIDLLT{HWType: iana.HWType(0x0102), Time: 7, LinkLayerAddr: append(net.HardwareAddr(nil), ll...)}
+		}
+		w.Probe("pd.duids_differ_in_hwtype_only")
+	}
 	w.FaultsOn = t.Draw(2) == 1
 	if w.FaultsOn {
 		w.DropPct = int(t.Draw(10))
